@@ -136,6 +136,17 @@ def sq (x : α) : α := x * x
 
 /-! #### Haversine (haversine.rs) -/
 
+/-- the `h` of `HaversineMeasure::distance` on its own (same expression as in `havDistance` below;
+`havDistance T R a b = R * (2 * asin (sqrt (havH T a b)))` holds by `rfl`) — used by the a posteriori
+arcsine certificate of the rational engine and by the accuracy theorems. -/
+def havH (a b : P2 α) : α :=
+  let two : α := 1 + 1
+  let theta1 := T.toRad a.2
+  let theta2 := T.toRad b.2
+  let dTheta := T.toRad (b.2 - a.2)
+  let dLambda := T.toRad (b.1 - a.1)
+  sq (T.sin (dTheta / two)) + T.cos theta1 * T.cos theta2 * sq (T.sin (dLambda / two))
+
 /-- `HaversineMeasure::distance` -/
 def havDistance (R : α) (a b : P2 α) : α :=
   let two : α := 1 + 1
